@@ -3,6 +3,7 @@
 package main
 
 import (
+	"bytes"
 	"crypto/sha256"
 	"encoding/binary"
 	"encoding/hex"
@@ -32,8 +33,11 @@ func short(s string) string {
 	return fmt.Sprintf("sha256:%s(len=%d)", hex.EncodeToString(h[:12]), len(s))
 }
 
-func dumpDB(d *memory.Database) (map[string]string, error) {
-	out := map[string]string{}
+// dumpRaw reads the whole database: "Bucket/keyhex" -> raw value bytes.
+type rawEntry struct{ k, v []byte }
+
+func dumpRaw(d *memory.Database) (map[string]rawEntry, error) {
+	out := map[string]rawEntry{}
 	it, err := d.NewIterator(nil, false)
 	if err != nil {
 		return nil, err
@@ -46,14 +50,51 @@ func dumpDB(d *memory.Database) (map[string]string, error) {
 			return nil, err
 		}
 		if len(k) == 0 {
-			out["<empty-key>"] = short(hex.EncodeToString(v))
+			out["<empty-key>"] = rawEntry{k, v}
 			continue
 		}
-		bucket := db.Bucket(k[0])
-		name := bucket.String() + "/" + hex.EncodeToString(k[1:])
-		out[name] = short(decodeValue(d, bucket, k[1:], v))
+		out[db.Bucket(k[0]).String()+"/"+hex.EncodeToString(k[1:])] = rawEntry{k, v}
 	}
 	return out, nil
+}
+
+// diffDatabases lists the keys on which the decoded contents of two databases differ. Values
+// that are byte-identical are equal; the others are decoded first (see decodeValue).
+func diffDatabases(da, dbb *memory.Database) ([]dbDiff, int, error) {
+	ra, err := dumpRaw(da)
+	if err != nil {
+		return nil, 0, err
+	}
+	rb, err := dumpRaw(dbb)
+	if err != nil {
+		return nil, 0, err
+	}
+	var out []dbDiff
+	text := func(d *memory.Database, e rawEntry) string {
+		if len(e.k) == 0 {
+			return short(hex.EncodeToString(e.v))
+		}
+		return short(decodeValue(d, db.Bucket(e.k[0]), e.k[1:], e.v))
+	}
+	for name, va := range ra {
+		vb, ok := rb[name]
+		switch {
+		case !ok:
+			out = append(out, dbDiff{name, text(da, va), "<absent>"})
+		case !bytes.Equal(va.v, vb.v):
+			ta, tb := text(da, va), text(dbb, vb)
+			if ta != tb {
+				out = append(out, dbDiff{name, ta, tb})
+			}
+		}
+	}
+	for name, vb := range rb {
+		if _, ok := ra[name]; !ok {
+			out = append(out, dbDiff{name, "<absent>", text(dbb, vb)})
+		}
+	}
+	sort.Slice(out, func(i, j int) bool { return out[i].Key < out[j].Key })
+	return out, len(ra), nil
 }
 
 func decodeValue(d *memory.Database, bucket db.Bucket, key, val []byte) string {
@@ -128,22 +169,3 @@ func bucketOf(key string) string {
 	return key
 }
 
-// diffDumps lists the keys on which two dumps differ ("<absent>" when a key is missing).
-func diffDumps(a, b map[string]string) []dbDiff {
-	var out []dbDiff
-	for k, va := range a {
-		vb, ok := b[k]
-		if !ok {
-			out = append(out, dbDiff{k, va, "<absent>"})
-		} else if va != vb {
-			out = append(out, dbDiff{k, va, vb})
-		}
-	}
-	for k, vb := range b {
-		if _, ok := a[k]; !ok {
-			out = append(out, dbDiff{k, "<absent>", vb})
-		}
-	}
-	sort.Slice(out, func(i, j int) bool { return out[i].Key < out[j].Key })
-	return out
-}
